@@ -7,6 +7,7 @@ change to the working tree always produces a fresh analysis.
 """
 import fcntl
 import hashlib
+import threading
 import json
 import os
 import shlex
@@ -23,6 +24,7 @@ RXAST = os.path.join(BUILD, 'rxast')
 RXIR = os.path.join(BUILD, 'rxir')
 XINC = os.path.join(VERIF, 'support', 'xinc')
 CACHE_ROOT = os.environ.get('RXVERIF_CACHE', os.path.join(VERIF, '.cache'))
+UNIT_CACHE = os.environ.get('RXVERIF_UNIT_CACHE', os.path.join(VERIF, '.cache', 'units'))
 
 CLANGXX = 'clang++'
 CLANG = 'clang'
@@ -124,7 +126,7 @@ class Ctx:
         try:
             for e in os.listdir(CACHE_ROOT):
                 p = os.path.join(CACHE_ROOT, e)
-                if e != self.key and os.path.isdir(p) and now - os.path.getmtime(p) > 3 * 3600:
+                if e != self.key and e != 'units' and os.path.isdir(p) and now - os.path.getmtime(p) > 3 * 3600:
                     shutil.rmtree(p, ignore_errors=True)
             os.utime(self.cdir, None)
         except OSError:
@@ -259,12 +261,48 @@ class Ctx:
         def build(out):
             units = self.ast_units(config)
 
+            env_hash = self._unit_env_hash()
+
             def one(rel):
                 flags, lang = self.unit_flags(rel, config)
                 dst = os.path.join(out, rel.replace('/', '__') + '.json')
+                # content-addressed cache of single-unit facts, shared by every copy of the tree: the key covers everything the extractor reads
+                # (the unit, every non-unit file under src/, the flags with the tree root normalised, the extractor binary)
+                h = hashlib.sha256()
+                h.update(env_hash)
+                h.update(('%s|%s|' % (config, rel)).encode())
+                h.update('\0'.join(f.replace(self.repo, '@ROOT@') for f in flags).encode())
+                with open(os.path.join(self.repo, rel), 'rb') as fh:
+                    h.update(hashlib.sha256(fh.read()).digest())
+                cpath = os.path.join(UNIT_CACHE, h.hexdigest()[:40] + '.json')
+                if os.path.exists(cpath):
+                    try:
+                        with open(cpath) as fh:
+                            meta = fh.readline()
+                            txt = fh.read()
+                        rc, err = json.loads(meta)
+                        with open(dst, 'w') as fh:
+                            fh.write(txt.replace('@ROOT@', self.repo))
+                        os.utime(cpath, None)
+                        return rel, rc, err.replace('@ROOT@', self.repo)
+                    except (OSError, ValueError):
+                        pass
                 cmd = [RXAST, '--root=' + self.repo, '--out=' + dst, os.path.join(self.repo, rel), '--'] + flags + ['-w', '-ferror-limit=0']
                 p = run(cmd)
-                return rel, p.returncode, p.stderr[-3000:]
+                err = p.stderr[-3000:]
+                try:
+                    if os.path.exists(dst):
+                        with open(dst) as fh:
+                            txt = fh.read()
+                        if '@ROOT@' not in txt:
+                            tmpc = cpath + '.%d.%d.tmp' % (os.getpid(), threading.get_ident())
+                            with open(tmpc, 'w') as fh:
+                                fh.write(json.dumps([p.returncode, err.replace(self.repo, '@ROOT@')]) + '\n')
+                                fh.write(txt.replace(self.repo, '@ROOT@'))
+                            os.replace(tmpc, cpath)
+                except OSError:
+                    pass
+                return rel, p.returncode, err
             with ThreadPoolExecutor(max_workers=16) as ex:
                 res = list(ex.map(one, units))
             status = {}
@@ -273,6 +311,38 @@ class Ctx:
             with open(os.path.join(out, 'status.json'), 'w') as fh:
                 json.dump(status, fh, indent=1)
         return self._stage('ast_' + config, build)
+
+    def _unit_env_hash(self):
+        if 'unit_env' in self._mem:
+            return self._mem['unit_env']
+        h = hashlib.sha256()
+        h.update(b'unit-cache-v1')
+        with open(RXAST, 'rb') as fh:
+            h.update(hashlib.sha256(fh.read()).digest())
+        units = set(u['rel'] for u in self.compdb()) | set(x for v in EXTRA_UNITS.values() for x in v)
+        base = os.path.join(self.repo, 'src')
+        for d, dirs, files in os.walk(base):
+            dirs.sort()
+            for f in sorted(files):
+                pth = os.path.join(d, f)
+                rel = os.path.relpath(pth, self.repo)
+                if rel in units:
+                    continue
+                h.update(rel.encode() + b'\0')
+                with open(pth, 'rb') as fh:
+                    h.update(hashlib.sha256(fh.read()).digest())
+        os.makedirs(UNIT_CACHE, exist_ok=True)
+        # drop entries not used for 12 hours
+        try:
+            now = time.time()
+            for e in os.listdir(UNIT_CACHE):
+                pth = os.path.join(UNIT_CACHE, e)
+                if now - os.path.getmtime(pth) > 12 * 3600:
+                    os.unlink(pth)
+        except OSError:
+            pass
+        self._mem['unit_env'] = h.digest()
+        return self._mem['unit_env']
 
     def ast_status(self, config='K0'):
         d = self._ast_stage(config)
